@@ -5,7 +5,7 @@ import itertools, math, subprocess, tempfile, warnings
 import numpy as np
 from common import *
 
-IMPORTS = "From QE Require Import C09.Solve C09.Model."
+IMPORTS = "From Coq Require Import Qabs Arith.\nFrom QE Require Import C09.Solve C09.Model."
 FINISH = dict(level="proof", technique_note=(
     "Coq theorems (coq/C09/Props.v) about the executable DiscreteDP model coq/C09/Model.v (generic over Num; Q instance "
     "for exact runs, PrimFloat instance for huge dyadic v); model tied to /repo by evaluating it with vm_compute on the "
@@ -270,6 +270,7 @@ def run(ctx):
     thorough = ctx.tier == "thorough"
     rng = ctx.rng
     ctx.proofs()
+    warnings.filterwarnings("ignore")
     from quantecon.markov import DiscreteDP, backward_induction
 
     n_inst = 220 if thorough else 70
@@ -323,7 +324,7 @@ def run(ctx):
                 okc = okc and all(list(Qg[k]) == [float(x) for x in inst.Q[s][a]] for k, (s, a) in enumerate(zip(exp_s, exp_a)))
                 if not okc:
                     ctx.fail("constructor_sorting", "pairs/rewards/rows after construction are not the (s,a)-sorted input", inp, got, (exp_s, exp_a, exp_ptr))
-                ctor_cases.append(tup(form.coq, zlit(inst.n), natlist(got[0]), natlist(got[1]), natlist(got[2]),
+                ctor_cases.append(tup(form.coq, natlit(inst.n), natlist(got[0]), natlist(got[1]), natlist(got[2]),
                                       ext_list(None if x == -np.inf else frac(x) for x in Rg), qlist2([[frac(x) for x in r] for r in Qg])))
                 ctor_meta.append(inp)
 
@@ -453,7 +454,7 @@ def run(ctx):
                         ctx.fail("backward_induction_optimal", "vs[0] / sigmas are not optimal among all policy sequences",
                                  dict(inp, T=Th, v_term=vterm), {"vs0": vs[0], "sigmas": sgs, "value of sigmas": w}, best)
                 ctx.count("backward induction T=%d" % Th)
-                bi_cases.append(tup(form.coq, str(Th), qlist(vt), qlist2([[frac(x) for x in r] for r in vs]),
+                bi_cases.append(tup(form.coq, natlit(Th), qlist(vt), qlist2([[frac(x) for x in r] for r in vs]),
                                     "[" + "; ".join(natlist([int(x) for x in r]) for r in sgs) + "]" if Th else "(@nil (list nat))"))
                 bi_meta.append(dict(inp, T=Th, v_term=vterm))
 
@@ -554,11 +555,16 @@ def run(ctx):
     constructor_rejection(ctx, thorough)
 
 
+def fl(x):
+    t = flit(x)
+    return t + "%float" if t.startswith("(") else "(%s)%%float" % t
+
+
 def float_term(form):
     inst = form.inst
 
     def e(x):
-        return "NegInf" if x is None else "Fin " + flit(float(x))
+        return "NegInf" if x is None else "Fin " + fl(float(x))
 
     def el(a):
         a = list(a)
@@ -566,10 +572,10 @@ def float_term(form):
     if form.kind == "product":
         return "(mk_prod (T:=float) %d %d [%s] [%s] %s)" % (
             inst.n, inst.m, "; ".join(el(r) for r in inst.R), "; ".join(flist2([[float(x) for x in q] for q in rows]) for rows in inst.Q),
-            flit(float(inst.beta)))
+            fl(float(inst.beta)))
     return "(mk_sa (T:=float) %d %s %s %s %s %s)" % (
         inst.n, natlist(form.s), natlist(form.a), el(inst.R[s][a] for s, a in form.pairs),
-        flist2([[float(x) for x in inst.Q[s][a]] for s, a in form.pairs]), flit(float(inst.beta)))
+        flist2([[float(x) for x in inst.Q[s][a]] for s, a in form.pairs]), fl(float(inst.beta)))
 
 
 # ------------------------------------------------------------------ constructor rejection (subprocess, bounds-checked)
@@ -702,7 +708,7 @@ def constructor_rejection(ctx, thorough):
                 n, natlist(c["s"]), natlist(c["a"]), ext_list(None if x is None else Fraction(x) for x in c["R"]),
                 qlist2([[Fraction(x) for x in q] for q in c["Q"]]), qlit(Fraction(c["beta"])))
         code = {"OK": 0, "ValueError": 1, "IndexError": 2}.get(r, 9)
-        coq_cases.append(tup(term, str(code)))
+        coq_cases.append(tup(term, natlit(code)))
         meta.append(dict(inp, impl=r))
     bad = ctx.coq_check("constructor_outcome", IMPORTS, "cres (ddp Q) * nat",
                         "fun c => Nat.eqb (fst (cres_tag (fst c))) (snd c)", coq_cases, chunk=80, preamble=PREAMBLE)
